@@ -8,8 +8,9 @@ compared exactly (order of dictionary entries included).
 Two streams so that both sides of the guard of C07_inv_partial are exercised:
   guarded       : composite weights non-zero after merging, query points without explicit zero coefficient;
                   the invariant (funclib.check_inv) must hold on the implementation after every op
-  zero-weights  : weights that are / cancel to zero, query points scaled by 0 (F-C07a / F-C07b live here);
-                  invariant violations found there are matched against the listed findings by their trigger.
+  zero-weights  : weights that are / cancel to zero, query points scaled by 0 (F-C07a / F-C07b / F-C07c live here);
+                  EVERY invariant violation found there must disappear when the triggers of the listed findings are
+                  repaired on the implementation (else it is reported), a few are shrunk and matched individually.
 Search: random sequences on the implementation, invariant evaluated after every op, first failing prefix shrunk."""
 import json
 import os
@@ -37,6 +38,7 @@ IMPORTS = ["From PV Require Import Model.Func."]
 RUN = "trace"
 INPUT_TYPE = "(bool * list op)"
 
+ALL_REPAIRS = ("prune-weights", "prune-queries", "skip-zero-function")
 X0 = ("PVar", 0)
 ZX0 = ("PScalL", 0, ("PVar", 0))
 
@@ -46,12 +48,16 @@ def universe(reuse0, reuse1, terms):
     return [("NewPoint",), ("NewLeaf", reuse0), ("NewLeaf", reuse1), ("Combine", terms)]
 
 
-def alphabet(points):
+def alphabet(points, reduced=False):
+    """every call on the three functions of the universe; reduced: fixed_point only on the composite
+    (stationary_point and fixed_point differ only by the gradient handed to add_point)"""
     al = []
     for f in (0, 1, 2):
         for p in points:
             al += [("Oracle", f, p), ("Gradient", f, p), ("Value", f, p)]
-        al += [("Stationary", f), ("Fixed", f)]
+        al += [("Stationary", f)]
+        if f == 2 or not reduced:
+            al += [("Fixed", f)]
     return al
 
 
@@ -68,7 +74,8 @@ def exhaustive_cases(tier):
     """(setup ops, body ops, stream) ; every body sequence up to the stated length"""
     cases = []
     g_len = 3 if tier == "quick" else 4
-    for body in sequences(alphabet([X0]), g_len):
+    for body in sequences(alphabet([X0]), g_len - 1) + \
+            [b for b in sequences(alphabet([X0], reduced=True), g_len) if len(b) == g_len]:
         cases.append((universe(True, False, [(0, 1), (1, 2)]), body, "guarded"))
     for body in sequences(alphabet([X0]), 2):
         cases.append((universe(False, True, [(0, -1), (1, 0.5)]), body, "guarded"))
@@ -91,19 +98,20 @@ WEIGHTS = [1, -1, 2, -2, 0.5, -0.5, 4, 0.25, 1.0, -1.0]
 class Gen(object):
     """online generator: decisions look at the live objects (counters, current weights), so every op is valid"""
 
-    def __init__(self, rng, profile):
-        self.rng, self.profile = rng, profile
+    def __init__(self, rng, profile, full=True):
+        self.rng, self.profile, self.full = rng, profile, full
         self.w = FL.World()
         self.ops, self.lits, self.per_op = [], [], []
         self.pool = []
         self.viol = None
 
     def emit(self, op, check=None):
+        self.pending = op
         lit, ret = self.w.apply(op)
         self.ops.append(op)
         self.lits.append(lit)
-        st = self.w.dump_state()
-        self.per_op.append([ret, st])
+        st = self.w.dump_state() if (self.full or check is not None) else None
+        self.per_op.append([ret, st if self.full else []])
         if check is not None and self.viol is None:
             v = check(self.w, len(self.ops) - 1, op, st)
             if v:
@@ -221,7 +229,7 @@ class Gen(object):
             self.emit(("NewLeaf", rng.random() < 0.5), check)
         while len(self.ops) < length:
             self.step(check)
-        inp = "(true, %s)" % FL.coq_list(self.lits)
+        inp = "(%s, %s)" % ("true" if self.full else "false", FL.coq_list(self.lits))
         return inp, [self.per_op, self.w.dump_state()]
 
 
@@ -262,15 +270,17 @@ def shrink(ops):
     return ops
 
 
-def has_zero_weight(ops):
-    """does some Combine of the list build a composite with a zero weight (explicit or by cancellation)?"""
+def has_zero_weight(ops, all_zero=False):
+    """does some Combine of the list build a composite with a zero weight (explicit or by cancellation)?
+    all_zero: ... a composite ALL of whose weights are zero (the zero function)?"""
     try:
         w = FL.World()
         for op in ops:
             w.apply(op)
-            if op[0] == "Combine" and any(v == 0 for v in w.funcs[-1].decomposition_dict.values()):
-                return True
-            # a composite combined from one that had zero weights and was not evaluated yet inherits them
+            if op[0] == "Combine":
+                vals = list(w.funcs[-1].decomposition_dict.values())
+                if (all(v == 0 for v in vals) if all_zero else any(v == 0 for v in vals)):
+                    return True
     except Exception:
         return False
     return False
@@ -305,22 +315,30 @@ def load_known_c07():
 def is_known(payload, known):
     """A violation is a listed finding iff (a) it is an invariant violation of an op list that contains the
     finding's trigger shape (a composite built with a zero / cancelling weight for F-C07a, a query point with an
-    explicit zero coefficient for F-C07b) and (b) it DISAPPEARS when exactly that trigger is repaired (weights pruned
-    at construction, resp. query point pruned before the call).  Anything else is not known."""
+    explicit zero coefficient for F-C07b, a composite all of whose weights cancel for F-C07c) and (b) it DISAPPEARS
+    when exactly that trigger is repaired on the implementation (weights pruned and flag recomputed at construction,
+    resp. query point pruned before the call, resp. stationary_point / fixed_point / add_point on the zero function
+    ignored).  Anything else is not known."""
     if payload.get("kind") != "invariant-violated" or "ops" not in payload:
         return None
     ops = [FL.detuple(o) for o in payload["ops"]]
     if not fails(ops):
         return None
     ids = set(k["id"] for k in known)
-    zw, zq = has_zero_weight(ops), has_zero_query(ops)
-    # (an op list that is not executable under the repair, because fewer leaves get created, counts as repaired)
-    if "F-C07a" in ids and zw and outcome(ops, repair="prune-weights")[0] != "viol":
-        return "F-C07a"
-    if "F-C07b" in ids and zq and outcome(ops, repair="prune-queries")[0] != "viol":
-        return "F-C07b"
-    if "F-C07a" in ids and "F-C07b" in ids and zw and zq and outcome(ops, repair="both")[0] != "viol":
-        return "F-C07a"       # both triggers are needed for this one; listed under the first
+    shapes = []
+    if "F-C07a" in ids and has_zero_weight(ops):
+        shapes.append(("F-C07a", "prune-weights"))
+    if "F-C07b" in ids and has_zero_query(ops):
+        shapes.append(("F-C07b", "prune-queries"))
+    if "F-C07c" in ids and has_zero_weight(ops, all_zero=True):
+        shapes.append(("F-C07c", "skip-zero-function"))
+    # smallest set of repairs of triggers PRESENT in the op list under which the violation disappears
+    # (an op list that is not executable under a repair, because fewer leaves get created, counts as repaired)
+    import itertools
+    for r in range(1, len(shapes) + 1):
+        for sub in itertools.combinations(shapes, r):
+            if outcome(ops, repair=tuple(rep for _, rep in sub))[0] != "viol":
+                return sub[0][0]
     return None
 
 
@@ -339,6 +357,12 @@ def replay(payload):
     ops = [FL.detuple(o) for o in payload["ops"]]
     if payload.get("kind") == "invariant-violated":
         return bool(fails(ops))
+    if payload.get("kind") == "implementation-raised":
+        try:
+            FL.run_ops(ops, full=False)
+        except (Exception, RecursionError):
+            return True
+        return False
     try:
         inp, dump, _, _ = FL.run_ops(ops, full=True)
     except Exception:
@@ -372,7 +396,8 @@ def correspondence(tier, seed, corpus=()):
     check = make_check(check_rng)
     streams = {}
     for name in ("guarded", "zero"):
-        streams[name] = dict(cases=[], opss=[], hist={}, lens=[], distinct=set(), viols=[], exhaustive=0, randoms=0)
+        streams[name] = dict(cases=[], opss=[], hist={}, lens=[], distinct=set(), viols=[], exhaustive=0, randoms=0,
+                             raised=[])
 
     def add(name, ops, inp, dump, viol):
         s = streams[name]
@@ -393,17 +418,27 @@ def correspondence(tier, seed, corpus=()):
     for setup, body, name in exhaustive_cases(tier):
         ops = list(setup) + list(body)
         # all shorter sequences are cases of their own, so the state after each prefix is compared there
-        inp, dump, _, viol = FL.run_ops(ops, full=False, check=check)
-        if viol:
-            # run_ops stops at the violation; redo without the check for the complete dump
-            inp, dump, _, _ = FL.run_ops(ops, full=False)
+        try:
+            inp, dump, _, viol = FL.run_ops(ops, full=False, check=check)
+            if viol:
+                # run_ops stops at the violation; redo without the check for the complete dump
+                inp, dump, _, _ = FL.run_ops(ops, full=False)
+        except (Exception, RecursionError) as e:
+            streams[name]["raised"].append((ops, repr(e)[:300]))
+            continue
         add(name, ops, inp, dump, viol)
         streams[name]["exhaustive"] += 1
     n_rand = dict(guarded=600, zero=250) if tier == "quick" else dict(guarded=6000, zero=2500)
     for name in ("guarded", "zero"):
-        for _ in range(n_rand[name]):
-            g = Gen(rng, name)
-            inp, dump = g.run(rng.randint(6, 16), check)
+        for k in range(n_rand[name]):
+            # the whole state is compared after every op for one sequence in three, after the last op (and
+            # every returned object) for the others
+            g = Gen(rng, name, full=(k % 3 == 0))
+            try:
+                inp, dump = g.run(rng.randint(6, 16), check)
+            except (Exception, RecursionError) as e:
+                streams[name]["raised"].append((g.ops + [g.pending], repr(e)[:300]))
+                continue
             add(name, g.ops, inp, dump, g.viol)
             streams[name]["randoms"] += 1
     t_impl = time.time() - t0
@@ -420,6 +455,22 @@ def correspondence(tier, seed, corpus=()):
                              model=model_output(IMPORTS, RUN, s["cases"][i][0])[:3000]))
         problems = []
         seen = set()
+        for ops, err in s["raised"][:2]:
+            # every op of these streams is a documented call on valid arguments: it must not raise
+            problems.append(dict(kind="implementation-raised", ops=ops, error=err, stream_profile=name))
+        # violations that survive ALL repairs cannot be one of the listed findings: report those first
+        unexplained = []
+        if name == "zero":
+            for ops, viol in s["viols"]:
+                pre = ops[:viol["at_op"] + 1] if "at_op" in viol else ops
+                if outcome(pre, repair=ALL_REPAIRS)[0] == "viol":
+                    unexplained.append((ops, viol))
+        s["n_unexplained"] = len(unexplained)
+        for ops, viol in unexplained[:2]:
+            small = shrink(ops[:viol["at_op"] + 1] if "at_op" in viol else ops)
+            v2 = fails(small) or viol
+            problems.append(dict(kind="invariant-violated", ops=small, clause=v2["clause"], detail=v2, stream_profile=name,
+                                 note="not explained by a zero weight or a zero-scaled query"))
         for ops, viol in s["viols"]:
             if len(problems) >= 3:
                 break
@@ -431,6 +482,8 @@ def correspondence(tier, seed, corpus=()):
             v2 = fails(small) or viol
             problems.append(dict(kind="invariant-violated", ops=small, clause=v2["clause"], detail=v2, stream_profile=name))
         sample_i = [0, len(s["cases"]) - 1] if s["cases"] else []
+        if not s["lens"]:
+            s["lens"] = [0]
         out.append(dict(
             name="oracle-ops-" + ("guarded" if name == "guarded" else "zero-weights"),
             evaluations=len(s["cases"]), distinct_nontrivial=len(s["distinct"]),
@@ -440,6 +493,7 @@ def correspondence(tier, seed, corpus=()):
                      "weights that are or cancel to zero, query points scaled by 0")
                   + "; non-trivial = at least one call on a composite; distinct by op list"),
             mismatches=mism, n_mismatch=len(bad), problems=problems, n_invariant_violations=len(s["viols"]),
+            n_implementation_raised=len(s["raised"]), n_violations_not_explained_by_known_triggers=s["n_unexplained"],
             samples=[dict(ops=s["opss"][i], final_state=s["cases"][i][1][1]) for i in sample_i],
             distribution=dict(op_histogram=dict(sorted(s["hist"].items())), exhaustive_sequences=s["exhaustive"],
                               random_sequences=s["randoms"], len_min=min(s["lens"]), len_max=max(s["lens"]),
@@ -464,7 +518,7 @@ def search(tier, seed):
         try:
             g.run(rng.randint(5, 14), check)
         except Exception as e:
-            return dict(kind="implementation-raised", ops=g.ops, error=repr(e))
+            return dict(kind="implementation-raised", ops=g.ops + [getattr(g, "pending", None)], error=repr(e)[:300])
         if g.viol:
             small = shrink(g.ops[:g.viol["at_op"] + 1])
             v = fails(small) or g.viol
